@@ -282,7 +282,7 @@ class C18(fw.Prop):
             "exchanges (numbers wrap); serial read granularities: whole frames, byte by byte, random sizes, with timeouts returning nothing; connect / "
             "disconnect / reconnect / send without connection; answers without LLC header, missing answers; every step compared with the model "
             "(result, link state and four counters, the meter's state, the request as the meter reassembled it, the frames the client wrote); left part = "
-            "the answer C18 demands; UAs carrying negotiation parameters (126 = 0x7E, 128) or check sequences containing 0x7E; stations whose address bytes contain 0x7E; non-trivial = distinct session")
+            "the answer C18 demands; UAs carrying negotiation parameters (126 = 0x7E, 128) or check sequences containing 0x7E; stations whose address bytes contain 0x7E; requests that begin with E6 E6 00 / E6 E7 00, requests of flag bytes and with flags at the segment cuts; property oracle: what the meter reassembled is LLC header || APDU; non-trivial = distinct session")
     trusted_base = ["extract.py (HDLC tables)", "Spec.Meter is my reading of the peer C18 quantifies over", "the harness's byte-level meter and codec (written independently of the library)",
                     "frame bytes <-> frames and the receive buffer are C09/C10/C12 (composed in C18_frame_read_any_granularity)"]
     assumptions = ["the meter follows the normal-response-mode procedure with window 1 (Spec.Meter) and does not reset its numbers on SNRM",
